@@ -3,6 +3,7 @@ package sim
 import (
 	"fmt"
 	"strings"
+	"time"
 )
 
 // C12Scenario: failures are retried, benign races tolerated, one bad child blocks nothing.
@@ -164,6 +165,65 @@ func C12Scenario() *Scenario {
 				{Name: "work", Quiet: true, MaxSteps: 3000, Policy: fair, OnBudget: budget, Do: func(w *World) { w.Plan.Armed = true }},
 				{Name: "edit", Quiet: true, MaxSteps: 3000, Policy: fair, OnBudget: budget, Do: edit},
 				{Name: "delete", Quiet: true, MaxSteps: 3000, Policy: fair, OnBudget: budget, Do: deleteOne},
+				nudge,
+				finish,
+			}
+			return
+		}
+		if t.Pick(4, "mode") == 3 {
+			// an outage: from one moment on every hook call fails, for 2 s, 1 minute or 7
+			// minutes of simulated time (the syncs are retried with growing back-off all the
+			// while); then the webhook is back, and nothing else happens - no edit, no poke.
+			// Every parent whose sync failed during the outage must be synced successfully
+			// again by the retries alone: no failure drops the work for good.
+			parentKey := "parent"
+			var parents []ParentRef
+			if decorator {
+				parentKey, parents = "object", ds.Targets
+			} else {
+				parents = cs.Parents
+			}
+			dur := []time.Duration{2 * time.Second, time.Minute, 7 * time.Minute}[t.Pick(3, "outage")]
+			w.Cfg["policy"] = fmt.Sprintf("outage %v", dur)
+			sig["mode"] = "outage"
+			w.EnvOps = gcOnly
+			var t0 time.Duration
+			startStep, endStep := 0, 0
+			outage := &Policy{Name: "outage", HookFault: 1000, HookFaults: []string{"500", "refused"}}
+			w.Stages = []Stage{
+				{Name: "work", Quiet: true, MaxSteps: 3000, Policy: fair, OnBudget: budget},
+				{Name: "outage", Policy: outage, MaxSteps: 6000, Do: func(w *World) { t0 = w.Now(); startStep = w.step; edit(w) },
+					Until: func(w *World) bool { return w.Now() > t0+dur }},
+				{Name: "recover", Quiet: true, MaxSteps: 6000, Policy: fair, OnBudget: budget, Do: func(w *World) { endStep = w.step },
+					Check: func(w *World) *Violation {
+						for _, p := range parents {
+							if p.Get(w) == nil {
+								continue
+							}
+							failed, recovered := 0, false
+							for _, h := range w.Hooks {
+								if (h.Kind != "sync" && h.Kind != "finalize") || !hookParentIs(h, parentKey, p) {
+									continue
+								}
+								if h.ParkStep > startStep && h.ParkStep <= endStep && h.Code != 200 {
+									failed++
+								}
+								if h.ParkStep > endStep && h.Code == 200 {
+									recovered = true
+								}
+							}
+							if failed > 0 && !recovered {
+								s2 := copySig(sig)
+								s2["fault"] = "outage"
+								return &Violation{Prop: "C12", Class: "work-dropped-after-outage", Sig: s2, Step: w.step,
+									Detail: fmt.Sprintf("%s %s/%s: %d hook calls failed during an outage of %v (steps %d-%d); after it the queues went quiet without a single successful sync of this parent", p.Res.Kind, p.NS, p.Name, failed, dur, startStep, endStep)}
+							}
+							if failed > 0 {
+								w.Probe("c12:recovered-after-outage")
+							}
+						}
+						return nil
+					}},
 				nudge,
 				finish,
 			}
